@@ -76,7 +76,7 @@ def replay_family(ctx, fam, behs, env=None, race=False, exhaustive_depth=None, b
         bad = behs[start + idx]
         n_bad, last = 0, ""
         for _ in range(2):
-            rc2, out2, mm2, s2 = _run(ctx, binary, fam, [bad], env, timeout=60)
+            rc2, out2, mm2, s2 = _run(ctx, binary, fam, [bad], env, timeout=120)
             if s2 is None:
                 n_bad += 1
                 last = out2
